@@ -309,6 +309,9 @@ class PeerWorld:
         old_remote, old_cid = self.remote, self.cur_conn
         self.log('conn', what='incoming-offered', c=cid)
         refusal = self.peer.handle_connection(inc)
+        if self.peer._async_task is None:             # the next iteration of Reactor._run_async_peers
+            self.peer.start_async_task()
+            self.tasks.append(self.peer._async_task)
         if refusal is not None:
             for _ in refusal:
                 pass
@@ -343,8 +346,8 @@ class PeerWorld:
                 self.peer = Peer(self.neighbor, self.reactor)
 
                 async def main():
-                    ptask = asyncio.get_event_loop().create_task(self.peer.run())
-                    self.tasks.append(ptask)
+                    self.peer.start_async_task()          # as Reactor._run_async_peers does
+                    self.tasks.append(self.peer._async_task)
                     try:
                         await asyncio.wait_for(director(self), timeout=horizon_ms / 1000.0)
                     except asyncio.TimeoutError:
